@@ -202,7 +202,13 @@ class StubsStringGenerator:
         import_string = "\n".join(import_strings)
         return f"\n{import_string}\n"
 
-    def _create_class_string(self, class_: Class, class_indentation: str = "", in_reexport_module: bool = False) -> str:
+    def _create_class_string(
+        self,
+        class_: Class,
+        class_indentation: str = "",
+        in_reexport_module: bool = False,
+        in_internal_class: bool = False,
+    ) -> str:
         if not in_reexport_module and self._has_node_shorter_reexport(node=class_):
             return ""
 
@@ -284,23 +290,30 @@ class StubsStringGenerator:
         # Inner classes
         own_class_generics = self.class_generics
         for inner_class in class_.classes:
-            if inner_class.is_public:
+            if inner_class.is_public or (in_internal_class and not is_internal(inner_class.name)):
                 # We set in_reexport_module to True since nested classes alone can't be reexported and are bound to
                 # their parent class
                 class_string = self._create_class_string(
                     class_=inner_class,
                     class_indentation=inner_indentations,
                     in_reexport_module=True,
+                    in_internal_class=in_internal_class,
                 )
                 class_text += f"\n{class_string}\n"
         # The methods below belong to this class again, not to the last inner class
         self.class_generics = own_class_generics
 
         # Methods
-        class_method_text, added_class_methods = self._create_class_method_string(class_.methods, inner_indentations)
+        # The public methods of a class that a subclass inherits from an internal class are shown like the inherited methods
+        class_method_text, added_class_methods = self._create_class_method_string(
+            class_.methods,
+            inner_indentations,
+            is_internal_class=in_internal_class,
+        )
 
         # Superclasses
         already_defined_names: set[str] = added_class_attributes.union(added_class_methods)
+        already_defined_names.update(inner_class.name for inner_class in class_.classes if inner_class.is_public)
         superclasses = class_.superclasses
         superclass_info = ""
         superclass_methods_text = ""
@@ -912,14 +925,19 @@ class StubsStringGenerator:
         )
 
         # Inner classes
+        own_class_generics = self.class_generics
         for inner_class in superclass_class.classes:
-            if not is_internal(inner_class.name):
+            if not is_internal(inner_class.name) and inner_class.name not in already_defined_names:
                 class_string = self._create_class_string(
                     class_=inner_class,
                     class_indentation=inner_indentations,
                     in_reexport_module=True,
+                    in_internal_class=True,
                 )
                 superclass_methods_text += f"\n{class_string}\n"
+                existing_names.add(inner_class.name)
+        # The methods of the farther superclasses belong to the subclass again, not to the last inner class
+        self.class_generics = own_class_generics
 
         # In place, so that the other private superclasses of the same subclass see these members too
         already_defined_names.update(existing_names)
